@@ -3,6 +3,8 @@ import LanceModel.C27.OffLemmas
 import LanceModel.C27.TabLemmas
 import LanceModel.C27.StackLemmas
 import LanceModel.C27.GenStack
+import LanceModel.C27.CountLemmas
+import LanceModel.C27.NoDef
 /-!
 # C27 — repetition / definition levels encode nesting losslessly
 
@@ -25,20 +27,67 @@ namespace LanceModel.C27
 /-! ## Part 1: the round trip for whole stacks -/
 
 /-- **`unravel_serialize`**: for EVERY stack of validity layers (structs, the leaf) and list layers — any depth, any
-    order, any number of rows, every layer with or without a validity buffer, null lists, empty lists, lists under
-    null structs, structs between lists — that satisfies the caller contract (`aligned`: the lengths line up and a
-    list under a null struct is null or empty; `layersOk`: list layers as `add_offsets` records them, see
-    `add_offsets_well_formed`): if `RepDefBuilder::serialize` returns definition levels, unravelling every layer
-    (innermost first, as the decoders do) returns exactly the logical normal form `nf` — the offsets of the
-    normalised lengths, and every validity buffer with the slots under a null ancestor reported null.
-    Proved by induction over the layer stack (`stack_main`). -/
+    order, at least one row, every layer with or without a validity buffer, null lists, empty lists, lists under null
+    structs, structs between lists, with or without any def level at all — that satisfies the caller contract
+    (`aligned`: the lengths line up and a list under a null struct is null or empty; `layersOk` / `specialsOk`: list
+    layers as `add_offsets` records them, see `add_offsets_well_formed` / `add_offsets_num_specials`):
+    `RepDefBuilder::serialize` followed by unravelling every layer (innermost first, as the decoders do) returns
+    exactly the logical normal form `nf` — the offsets of the normalised lengths, and every validity buffer with the
+    slots under a null ancestor reported null.  No residual hypothesis: that `serialize` returns levels is
+    `serialize_returns_levels`, the stacks without def levels go through the fast paths (`nodef_stack_roundtrip`).
+    (`0 < numDefs ls + numLists ls`: a stack of plain all-valid layers only is answered by `serialize`'s shortcut
+    before any level is built.)  Proved by induction over the layer stack (`stack_main`, `nodef_main`). -/
 theorem unravel_serialize (ls : List Layer) (k : Nat) (hnf : noFsl ls = true) (hok : layersOk ls = true)
-    (hal : aligned ls = true) (hdef : 0 < numDefs ls) (hT : numDefs ls ≤ T)
-    (s : Ser) (hs : serializeLayers ls = some s) (hlev : s.dl ≠ none) :
+    (hsp : specialsOk ls = true) (hal : aligned ls = true) (hrows : 0 < stackRows ls)
+    (hsome : 0 < numDefs ls + numLists ls) (hT : numDefs ls ≤ T)
+    (s : Ser) (hs : serializeLayers ls = some s) :
     unravelAll [Unr.new s.rep s.dl s.meaning k] (kindsOf ls) = some (nf ls).reverse := by
-  by_cases hl : 0 < numLists ls
-  · exact list_stack_roundtrip ls k hnf hok hal hdef hl hT s hs hlev
-  · exact validity_stack_roundtrip_lev ls k (onlyValidity_of_noLists ls hnf (by omega)) hal hdef hT s hs hlev
+  by_cases hdef : 0 < numDefs ls
+  · have hlev := serialize_returns_levels ls hnf hok hsp hal hrows hdef hT s hs
+    by_cases hl : 0 < numLists ls
+    · exact list_stack_roundtrip ls k hnf hok hal hdef hl hT s hs hlev
+    · exact validity_stack_roundtrip_lev ls k (onlyValidity_of_noLists ls hnf (by omega)) hal hdef hT s hs hlev
+  · exact nodef_stack_roundtrip ls k hnf hal hrows (by omega) (by omega) s hs
+
+/-- **`serialize` returns levels** for every contract-abiding stack with at least one row and one def level: the
+    counting invariant `current_num_specials = number of special entries` makes `current_len` the number of entries,
+    so `SerializerContext::build` never takes its "nothing recorded" early return -/
+theorem serialize_returns_levels_thm (ls : List Layer) (hnf : noFsl ls = true) (hok : layersOk ls = true)
+    (hsp : specialsOk ls = true) (hal : aligned ls = true) (hrows : 0 < stackRows ls) (hdef : 0 < numDefs ls)
+    (hT : numDefs ls ≤ T) (s : Ser) (hs : serializeLayers ls = some s) : s.dl ≠ none :=
+  serialize_returns_levels ls hnf hok hsp hal hrows hdef hT s hs
+
+/-- the fast path of `record_offsets` (no def levels) is the general path: on live entries with one length each it
+    succeeds only for non-empty lists and then writes exactly what the general loop writes -/
+theorem record_offsets_fast_path (R el : Nat) (E : List Entry) (lens : List Nat) (es' : List Entry)
+    (hz : ∀ e ∈ E, e.dl = 0) (hl : E.length = lens.length) (h : recOffsetsNoDef R E lens = some es') :
+    es' = recOffsets R el E lens ∧ ∀ l ∈ lens, 0 < l :=
+  recOffsetsNoDef_eq R el E lens es' hz hl h
+
+/-- the no-def loop of `unravel_offsets` is the general loop run on all-zero def levels -/
+theorem unravel_offsets_fast_path (nl el ml up : Nat) (rs : List Nat) (cur : Nat) :
+    offLoopNoDef rs cur =
+      ((offLoop nl el ml up (rs.zip (List.replicate rs.length 0)) cur).offs,
+       (offLoop nl el ml up (rs.zip (List.replicate rs.length 0)) cur).kept.map (·.1),
+       (offLoop nl el ml up (rs.zip (List.replicate rs.length 0)) cur).cur) :=
+  offLoopNoDef_eq nl el ml up rs cur
+
+/-- `add_offsets` records `num_specials` = the number of zero-length (null or empty) normalised lists (`specialsOk`) -/
+theorem add_offsets_num_specials (lens : List Nat) (v : Option (List Bool))
+    (h : ∀ b, v = some b → b.length = lens.length) :
+    countSpecials lens v = (normLens lens v).countP (· == 0) :=
+  countSpecials_eq lens v h
+
+set_option maxRecDepth 100000 in
+/-- a stack without any def level (`List<List<Int>>`, no nulls, no empty lists): the hypotheses hold -/
+example :
+    let b1 := (Builder.addOffsets {} [2, 1] none).get!.1
+    let b2 := (b1.addOffsets [1, 2, 3] none).get!.1
+    let ls := (b2.addNoNull 6).get!.layers
+    noFsl ls = true ∧ layersOk ls = true ∧ specialsOk ls = true ∧ aligned ls = true ∧ 0 < stackRows ls ∧
+      numDefs ls = 0 ∧ numLists ls = 2 ∧
+      (serializeLayers ls).map (fun s => (s.rep, s.dl)) = some (some [2, 1, 0, 2, 0, 0], none) ∧
+      nf ls = [.o [0, 2, 3] none, .o [0, 1, 3, 6] none, .v none] := by decide
 
 /-- for stacks without lists (nested structs around a leaf) the side condition "serialisation returned def levels"
     is proved as well: it holds as soon as there is at least one row -/
@@ -74,7 +123,8 @@ example :
     let b2 := (b1.addValidityBitmap [true, false, true]).get!
     let b3 := (b2.addOffsets [1, 3, 2] (some [true, false, true])).get!.1
     let ls := (b3.addValidityBitmap [true, false, true]).get!.layers
-    noFsl ls = true ∧ layersOk ls = true ∧ aligned ls = true ∧ 0 < numDefs ls ∧ numDefs ls ≤ T ∧
+    noFsl ls = true ∧ layersOk ls = true ∧ specialsOk ls = true ∧ aligned ls = true ∧ 0 < stackRows ls ∧
+      0 < numDefs ls + numLists ls ∧ numDefs ls ≤ T ∧
       ((serializeLayers ls).map (fun s => decide (s.dl ≠ none))) = some true ∧
       nf ls = [.o [0, 2, 2, 3] none, .v (some [true, false, true]), .o [0, 1, 1, 3] (some [true, false, true]),
         .v (some [true, false, true])] := by decide
